@@ -236,6 +236,9 @@ func (e *Engine) entryStateFor(pkgPath string) (*State, []string) {
 			st.mem.arrs[srt] = filterStores(arr, pi.mutMaps)
 		}
 	}
+	for r := range pi.mutMaps {
+		st.markOpaque(r)
+	}
 	for _, ax := range e.absentAxioms(pi, st, true) {
 		st.Assume(ax)
 	}
